@@ -245,7 +245,30 @@ func runC08(c *core.Ctx) {
 					continue
 				}
 				c.Instance("R1")
-				okFlip := boundedBelow(p, in, v, func(l ssa.Value) bool { k, ok := core.ConstInt(stripConv(l)); return ok && k >= 0 })
+				nonNeg := func(l ssa.Value) bool { k, ok := core.ConstInt(stripConv(l)); return ok && k >= 0 }
+				okFlip := boundedBelow(p, in, v, nonNeg)
+				if !okFlip {
+					// the test may be on a copy of the converted value: a φ that merges it (a switch over the
+					// field width), never an arithmetic result
+					seenA := map[ssa.Value]bool{v: true}
+					work := []ssa.Value{v}
+					for len(work) > 0 && !okFlip {
+						x := work[len(work)-1]
+						work = work[:len(work)-1]
+						if x.Referrers() == nil {
+							continue
+						}
+						for _, ref := range *x.Referrers() {
+							if phi, ok := ref.(*ssa.Phi); ok && !seenA[phi] {
+								seenA[phi] = true
+								work = append(work, phi)
+								if boundedBelow(p, in, phi, nonNeg) {
+									okFlip = true
+								}
+							}
+						}
+					}
+				}
 				if !okFlip {
 					okFlip = true
 					for _, cv := range flips {
@@ -306,6 +329,13 @@ func runC08(c *core.Ctx) {
 				for t := range taintBack(v) {
 					if core.ParamOf(fn, t) == pi {
 						return true
+					}
+					// validated after construction: a load of the very field of the fresh object that the
+					// parameter was stored into
+					if ld, ok := t.(*ssa.UnOp); ok && ld.Op == token.MUL {
+						if lf, lbase := core.FieldOf(ld); lf == f && lbase != nil && core.Unwrap(lbase) == core.Unwrap(base) {
+							return true
+						}
 					}
 				}
 				return false
@@ -952,7 +982,51 @@ func runC08ExactReader(c *core.Ctx) {
 			}
 		}
 	}
-	_ = errv
+	// only end-of-stream is rewritten: the mapping sits on the side of a test that compares the inner read's
+	// error with io.EOF (a transport failure inside a frame body must reach the handlers as it is)
+	eofOnly := false
+	for _, ifi := range core.Ifs(rd) {
+		cd := core.CondOf(ifi)
+		if cd.Op != token.EQL && cd.Op != token.NEQ {
+			continue
+		}
+		isEOF := func(v ssa.Value) bool {
+			ld, ok := core.Unwrap(v).(*ssa.UnOp)
+			if !ok {
+				return false
+			}
+			g, ok := ld.X.(*ssa.Global)
+			return ok && g.Name() == "EOF" && g.Pkg != nil && g.Pkg.Pkg.Path() == "io"
+		}
+		var other ssa.Value
+		if isEOF(cd.X) {
+			other = cd.Y
+		} else if isEOF(cd.Y) {
+			other = cd.X
+		}
+		if other == nil || errv == nil || !(other == errv || sameErr(other, errv)) {
+			continue
+		}
+		side := cd.True
+		if cd.Op == token.NEQ {
+			side = cd.False
+		}
+		mb := mapAt.Block()
+		if phi, ok := mapAt.(*ssa.Phi); ok {
+			// the mapped value enters the φ from the predecessor(s) that carry it
+			for i, e := range phi.Edges {
+				if ld, ok := core.Unwrap(e).(*ssa.UnOp); ok {
+					if g, ok := ld.X.(*ssa.Global); ok && g.Name() == "ErrUnexpectedEOF" {
+						mb = phi.Block().Preds[i]
+					}
+				}
+			}
+		}
+		if core.EdgeDominates(ifi.Block(), side, mb) || side == mb {
+			eofOnly = true
+		}
+	}
+	c.Check(eofOnly, "R7", "exact-reader/maps-only-eof", p.InstrPos(mapAt), "only io.EOF of the source is rewritten to io.ErrUnexpectedEOF", "the reader rewrites errors other than io.EOF to io.ErrUnexpectedEOF: a transport failure in the middle of a frame body reaches the handlers as a truncated-frame error (the forced close for connection errors is skipped)")
 	c.Check(remCond && okOrder, "R7", "exact-reader/maps-early-eof", p.InstrPos(mapAt), "EOF is mapped to io.ErrUnexpectedEOF when bytes are still owed after this read was counted", "the early-EOF test looks at the remaining count before this read was subtracted (or not at all): a complete last frame whose bytes arrive together with io.EOF is rejected, or a truncated one accepted")
 	c.Check(!condOnN, "R7", "exact-reader/eof-mapping-unconditional", p.InstrPos(mapAt), "the mapping does not depend on how many bytes came with the EOF", "source EOF is mapped to io.ErrUnexpectedEOF only for some byte counts of the final read: a reader that returns its last bytes together with io.EOF passes a truncated body off as complete")
 }
